@@ -92,11 +92,15 @@ type Ctx struct {
 	preOnce   sync.Once
 	preText   string
 	symMu     sync.Mutex
+	outerGuard string // path condition of the state a specification call is evaluated in
+	curGuard  string // path condition of the instruction being executed (guards assume)
 	symCache  []assertInfo
 	nEntry    int
 	defTerm   map[string]string
 	curBlock  int   // block of the verified function currently executing (-1: entry / global facts)
 	assertBlk []int // origin block of each assertion
+	assertTag []string // for assumed callee postconditions: the clause's tags (comma separated); "" otherwise
+	curTag    string
 	reach     [][]bool
 
 }
@@ -123,6 +127,7 @@ func (c *Ctx) note(s string) { c.notes[s] = true }
 func (c *Ctx) addAssert(a string, blk int) {
 	c.assert = append(c.assert, a)
 	c.assertBlk = append(c.assertBlk, blk)
+	c.assertTag = append(c.assertTag, c.curTag)
 }
 
 func (c *Ctx) fresh(prefix string) string {
@@ -158,6 +163,16 @@ func (c *Ctx) freshSort(prefix string, sort string) string {
 	return n
 }
 
+// assumeDef records a definitional axiom of a fresh symbol (the contents of a
+// new array or string): it is satisfiable in every model whatever path is
+// taken, so it needs no path guard (and is cheaper for the solvers without).
+func (c *Ctx) assumeDef(fact string) {
+	if c.inQuant > 0 || fact == "true" || fact == "" {
+		return
+	}
+	c.addAssert(fact, c.curBlock)
+}
+
 func (c *Ctx) assume(fact string) {
 	if c.inQuant > 0 {
 		// facts derived under a binder would mention the bound variable; they are
@@ -170,6 +185,32 @@ func (c *Ctx) assume(fact string) {
 	}
 	c.addAssert(fact, c.curBlock)
 }
+
+// assumeOnPath records a fact that only holds where the current path is
+// taken (a value invariant of something loaded from memory, say).  In a model
+// where the path is not taken the same term may denote anything -- a store
+// built from the zero value of a failed type assertion, for instance -- and an
+// unguarded fact about it would contradict the other paths' assumptions and
+// make their obligations vacuous.  Structural facts (well-formedness of
+// references, integer ranges, definitional axioms) stay unguarded: they are
+// satisfiable on every path and much cheaper for the solvers that way.
+func (c *Ctx) assumeOnPath(fact string) {
+	if c.inQuant > 0 || fact == "true" || fact == "" {
+		return
+	}
+	g := c.curGuard
+	if g == "" {
+		g = "true"
+	}
+	if c.outerGuard != "" && c.outerGuard != "true" {
+		g = and(c.outerGuard, g)
+	}
+	if g != "true" {
+		fact = implies(g, fact)
+	}
+	c.addAssert(fact, c.curBlock)
+}
+
 
 // def introduces a name for a term (keeps queries linear in size).
 func (c *Ctx) def(prefix, sort, term string) string {
